@@ -34,7 +34,7 @@ func (c10) Rule() string {
 		"new edits by the fresh client, a second fresh attach and a second compaction. Oracle: canonical content (text as merged " +
 		"styled runs, trees as XML) of a fresh attach == content before compaction; a stale sync fails with an epoch-mismatch " +
 		"error and the log gains no row; stale detach succeeds; epoch grows by exactly one per successful compaction; " +
-		"packs.Compact never errors on a reachable document. Non-trivial = >=2 editors and at least one successful compaction."
+		"packs.Compact never errors on a reachable document. Non-trivial = >=2 editors and at least one successful compaction. Stale changes carry operations, operations+presence or presence only; in a third of the cases the second generation outgrows the first."
 }
 func (c10) Assumptions() []string {
 	return []string{"memdb; single node: the Cluster RPC loops back into the same process", "content compared in canonical form, not chunk by chunk"}
